@@ -138,6 +138,27 @@ def run(chk):
                     chk.violation("oracle", why, head=name, template=text, path=path, item_detail=det, edited=new)
             else:
                 chk.traces += 1
+        # L-ADDIMPORT: the Coq model of addImport / getPackageFromItemDetail against the Go functions
+        pool = ["package x", "", "import \"fmt\"", "import f \"fmt\"", "import (", "\t\"os\"", ")", "// c", "var v = 1", "func f() {", "}",
+                "@goht T() {", "\t%p", "type T int", "const c = 1", "goht x", "import(", " import \"x\"", ") trailing", "importx", "func\tg()", "var"]
+        lines = []
+        for _ in range(3000 if quick else 60000):
+            doc = [rng.choice(pool) for _ in range(rng.randint(0, 9))]
+            lines.append("addimport " + hx('"p/q"') + "".join(" " + hx(l) for l in doc))
+        dpool = ['func() (from "a/b")', 'x (from "a") y (from "c/d")', '(from "a")', '(from  "a")', '(from\t"a")', '"a/b"', 'x (from "a"', "x (from \"a\nb\")",
+                 'a\nb (from "c")', '(from "")', '(from "a") ', 'v (from "a\"b")', '(from\n"a")', "", "plain"]
+        for d in dpool:
+            lines.append("detailpkg " + hx(d))
+        for _ in range(500 if quick else 10000):
+            d = "".join(rng.choice(['(from ', '"', ')', ' ', 'a', '\n', '(', 'from', '\t']) for _ in range(rng.randint(0, 10)))
+            lines.append("detailpkg " + hx(d))
+        for l, a, m in zip(lines, common.run_lines_parallel(common.IMPLRUN, lines), common.run_lines_parallel(common.DRIVER, lines)):
+            chk.case(l)
+            chk.count("model-vs-go:" + l.split(" ")[0])
+            if a != m:
+                chk.broke("correspondence", "L-ADDIMPORT", "model of %s differs from the Go function" % l.split(" ")[0], input=l, impl=a, model=m)
+            else:
+                chk.traces += 1
         chk.samples = [{"head": cases[0][0], "detail": cases[0][3], "template": cases[0][1][:200]}]
     return chk.finish(level="proof", level_note=LEVEL_NOTE)
 
